@@ -1236,6 +1236,13 @@ impl Drop for RocksDBStateMachine {
             error!("Failed to save hard state on drop: {}", e);
         }
 
+        // The TTL registrations live in memory; stop()/close_db() persist them, a plain drop (the
+        // standalone engine's shutdown path) must too, or keys written with a TTL never expire
+        // after the restart (and a stale record from an earlier stop() expires the wrong ones).
+        if let Err(e) = self.persist_ttl_metadata() {
+            error!("Failed to persist TTL state on drop: {}", e);
+        }
+
         // Then flush data to disk
         if let Err(e) = self.flush() {
             error!("Failed to flush on drop: {}", e);
